@@ -19,6 +19,9 @@ use std::usize;
 pub use crate::stats::pairhmm::{EmissionParameters, GapParameters, StartEndGapParameters};
 use crate::stats::LogProb;
 
+/// Tolerated overshoot above 1.0 of `prob_gap_x + prob_gap_y` (computed with approximate exp).
+const NUMERICAL_EPSILON: f64 = 0.0001;
+
 /// Fast approximation of sum over the three given proabilities. If the largest is sufficiently
 /// large compared to the others, we just return that instead of computing the full (expensive)
 /// sum.
@@ -77,6 +80,7 @@ impl PairHMM {
             prob_no_gap: gap_params
                 .prob_gap_x()
                 .ln_add_exp(gap_params.prob_gap_y())
+                .cap_numerical_overshoot(NUMERICAL_EPSILON)
                 .ln_one_minus_exp(),
             prob_no_gap_x_extend: gap_params.prob_gap_x_extend().ln_one_minus_exp(),
             prob_no_gap_y_extend: gap_params.prob_gap_y_extend().ln_one_minus_exp(),
